@@ -12,6 +12,8 @@
    reader's context, integers in range of their stored type, array byte count = element count * size, every child in a
    slot of its parent with the slot's cardinality, distinct sibling names, the reader's validation). *)
 From Coq Require Import ZArith List Bool.
+From Coq Require String.
+Import String.StringSyntax.
 From CgnsV Require Import ListX TreeDB SidsRows Gen_C01 SidsCodec SidsCodecProofs.
 Import ListNotations.
 Local Open Scope Z_scope.
